@@ -274,14 +274,15 @@ package manager
 // sub-query features => every stream becomes uncertain; otherwise the uncertain set keeps what it had
 // and gains the added and the reset streams, and the updated streams as well when the definition looks
 // at payload or time (feature bits 7 = data, 4 = absolute time, 5 = relative time). Tags that only use
-// id filters are not touched.
+// id filters (no feature bit besides bit 0) gain just the added streams.
 //@ func (*Manager).invalidateTags
 //@   prop C06
 //@   nosafety
 //@   noframe
 //@   assert before call mapupdate#1: subquery_all: implies(ti.features.SubQueryFeatures != 0, same_slice(tin.Uncertain.mask, mgr.allStreams.mask))
 //@   assert before call mapupdate#1: grows: implies(ti.features.SubQueryFeatures == 0, forall(k, 0, inf, implies( \
-//@       inset(ti.Uncertain.mask, k) || inset(addedStreams.mask, k) || inset(resetStreams.mask, k) || \
+//@       inset(ti.Uncertain.mask, k) || inset(addedStreams.mask, k) || \
+//@       (ti.features.MainFeatures & 254 != 0 && inset(resetStreams.mask, k)) || \
 //@       ((bitset(ti.features.MainFeatures, 7) || bitset(ti.features.MainFeatures, 4) || bitset(ti.features.MainFeatures, 5)) && inset(updatedStreams.mask, k)), \
 //@       inset(tin.Uncertain.mask, k))))
 //@   assert before call mapupdate#1: same_tag: tin.definition == ti.definition && same_slice(tin.Matches.mask, ti.Matches.mask)
